@@ -210,6 +210,12 @@ func VerifyDualProof(proof *DualProof, sourceTxID, targetTxID uint64, sourceAlh,
 
 	} else {
 
+		// The last leaf of the target Merkle Tree (proven by LastInclusionProof) is the transaction
+		// TargetTxHeader.BlTxID: when that is the source transaction itself, the leaf must be its Alh
+		if sourceTxID == proof.TargetTxHeader.BlTxID && proof.TargetBlTxAlh != sourceAlh {
+			return false
+		}
+
 		verifies := VerifyLinearProof(proof.LinearProof, sourceTxID, targetTxID, sourceAlh, targetAlh)
 		if !verifies {
 			return false
